@@ -95,7 +95,7 @@ func callReturnsStateOwned(c *core.Ctx, call *ssa.Call, idx int, depth int, seen
 	} else if call.Call.IsInvoke() {
 		// state read interfaces have one implementation per method name in the state packages
 		for _, fn := range c.AllFns {
-			if fn.Synthetic == "" && fn.Name() == call.Call.Method.Name() && fn.Signature.Recv() != nil && strings.HasPrefix(core.PkgOf(fn), core.PkgState+"/") {
+			if fn.Synthetic == "" && fn.Name() == call.Call.Method.Name() && fn.Signature.Recv() != nil && (strings.HasPrefix(core.PkgOf(fn), core.PkgState+"/") || core.PkgOf(fn) == core.PkgTx) {
 				if types.Implements(fn.Signature.Recv().Type(), call.Call.Value.Type().Underlying().(*types.Interface)) {
 					callees = append(callees, fn)
 				}
@@ -151,11 +151,49 @@ func checkStateAliasing(c *core.Ctx, rule, owner string, fn *ssa.Function, depth
 			}
 			continue
 		}
-		if depth > 0 {
-			if callee := s.Common.StaticCallee(); callee != nil && core.PkgOf(callee) == core.PkgTx && callee.Synthetic == "" {
+		if callee := s.Common.StaticCallee(); callee != nil && core.PkgOf(callee) == core.PkgTx && callee.Synthetic == "" && callee.Blocks != nil {
+			// a helper that operates in place on one of its parameters (`price.Mul(price, …)`)
+			// changes whatever the caller passes: the argument must not be a state-owned amount
+			for _, pi := range mutatedParams(callee) {
+				if pi < len(s.Common.Args) {
+					n++
+					if ok, why := stateOwned(c, s.Common.Args[pi], 0, map[ssa.Value]bool{}); ok {
+						c.Bad(rule, owner+"/"+core.ShortFn(fn)+"→"+callee.Name(), s.Pos(), callee.Name()+" performs an in-place big.Int operation on its parameter "+callee.Params[pi].Name()+", and this call passes an amount that lives inside the state ("+why+"): the stored value itself is changed (e.g. a price-table entry multiplied by the gas price), outside the deliver block and behind the module's dirty tracking")
+					}
+				}
+			}
+			if depth > 0 {
 				n += checkStateAliasing(c, rule, owner, callee, depth-1, visited)
 			}
 		}
 	}
 	return n
+}
+
+var mutParamCache = map[*ssa.Function][]int{}
+
+// mutatedParams: indices (into Params / call Args) of *big.Int parameters that fn uses as the
+// receiver of an in-place big.Int operation.
+func mutatedParams(fn *ssa.Function) []int {
+	if v, ok := mutParamCache[fn]; ok {
+		return v
+	}
+	var out []int
+	for i, p := range fn.Params {
+		if !isBigIntPtr(p.Type()) {
+			continue
+		}
+		mut := false
+		for _, s := range core.Sites(fn) {
+			name := s.Callee
+			if strings.HasPrefix(name, "(*math/big.Int).") && bigIntMutating[name[len("(*math/big.Int)."):]] && len(s.Common.Args) > 0 && core.Unwrap(s.Common.Args[0]) == ssa.Value(p) {
+				mut = true
+			}
+		}
+		if mut {
+			out = append(out, i)
+		}
+	}
+	mutParamCache[fn] = out
+	return out
 }
